@@ -62,7 +62,7 @@ class C13(Prop):
             step_ops.append(["insert", 1, n])
             step_ops.append(["replace", 0, n, False])
         step_ops += [["del_idx", 0], ["del_idx", -1], ["del_key", 1]]
-        for L in (1, 2, 3):
+        for L in ((1, 2, 3, 4) if tier == "thorough" else (1, 2, 3)):
             for seq in itertools.product(step_ops, repeat=L):
                 if seq[0][0] not in ("append", "insert"):
                     continue
